@@ -1,7 +1,10 @@
 ------------------------ MODULE Trace_SharedFormula ------------------------
 (* code -> spec: calls of the real replace_cell_names (through the verification *)
-(* window) on random formula texts must return what the transcribed scanner     *)
-(* of SharedFormula.tla returns.                                                *)
+(* window) on random formulas built from lexical atoms.  The result must be the *)
+(* ideal translation; on formulas exhibiting a named deviation feature it may   *)
+(* instead be what the transcribed as-is scanner of SharedFormula.tla returns   *)
+(* (so a repaired scanner is accepted, a third behaviour is not).  Outside the  *)
+(* features the transcribed scanner itself must equal the ideal.                *)
 EXTENDS SharedFormula, Json, IOUtils
 
 Rec == ndJsonDeserialize(IOEnv.TRACE)
@@ -9,7 +12,9 @@ VARIABLES l
 Ev == Rec[l]
 Init == l = 1
 TReplace == /\ l <= Len(Rec) /\ Ev.e = "replace" /\ "error" \notin DOMAIN Ev
-            /\ Scan(Ev.s, 1, <<>>, <<>>, FALSE, FALSE, Ev.dr, Ev.dc) = Ev.res
+            /\ LET asis == Scan(Ev.s, 1, <<>>, <<>>, FALSE, FALSE, Ev.dr, Ev.dc) IN
+                 /\ (Ev.res = Ev.ideal \/ (Ev.feats # <<>> /\ Ev.res = asis))
+                 /\ (Ev.feats = <<>> => asis = Ev.ideal)
             /\ l' = l + 1
 Next == TReplace
 Spec == Init /\ [][Next]_l
